@@ -86,6 +86,24 @@ def run(ctx):
     ctx.check_model(r, "PDataRx")
     ctx.require_coverage(r, ["RRead", "RParse", "RDeliver"])
 
+    # 1b. thorough: unbounded safety of the sync writer by an inductive invariant (Apalache, SMT):
+    # PDataInt.tla = the SyncWrite/SyncFinish actions over integers, for EVERY Max >= 7 and EVERY chunk size
+    if not q:
+        ap = os.path.join(SPEC, "apalache")
+        obligations = 0
+        for args in (["--init=Init", "--length=0"], ["--init=IndInit", "--length=1"]):
+            rc, out = vlib.sh(["apalache-mc", "check", "--cinit=ConstInit", "--inv=IndInv"] + args + ["PDataInt.tla"],
+                              cwd=ap, timeout=1800)
+            import shutil
+            shutil.rmtree(os.path.join(ap, "_apalache-out"), ignore_errors=True)
+            if "EXITCODE: OK" not in out:
+                raise vlib.ToolError("Apalache did not discharge the inductive invariant of PDataInt (%s):\n%s" % (args, out[-1500:]))
+            obligations += 1
+        ctx.extra_cov["apalache_inductive_invariant"] = {
+            "module": "specs/ps38/apalache/PDataInt.tla", "invariant": "IndInv", "obligations_discharged": obligations,
+            "meaning": "Init => IndInv and IndInv /\\ Next => IndInv' for all Max >= 7 and all chunk sizes in Nat: conservation, "
+                       "PDU-length bound, only-last flag, non-zero write results hold at every maximum PDU length"}
+
     # 2. behaviours -> real code
     cases = ctx.path("cases.ndjson")
     n = 0
